@@ -10,8 +10,8 @@ CASES = [
                  "    if index_range[0] < var_positional_start:")]),
     dict(id='c03-get-default-none', prop='C03', file=S, expect='violation',
          edits=[("""      if (
-          self.var_positional_start is not None
-          and argument < self.var_positional_start
+          self.var_positional_start is None
+          or argument < self.var_positional_start
       ):""", """      if argument < self.var_positional_start:""")]),
     dict(id='c03-set-index-none', prop='C03', file=C, expect='violation',
          edits=[("""    if positional_num is None:
@@ -85,14 +85,8 @@ CASES = [
       elif""")]),
     dict(id='c03-benign-get-default-split', prop='C03', file=S, expect='silent',
          edits=[("""      if (
-          self.var_positional_start is not None
-          and argument < self.var_positional_start
-      ):
-        params = list(self.parameters.values())
-        param = params[argument]""", """      start = self.var_positional_start
-      if start is None:
-        pass
-      elif argument < start:
-        params = list(self.parameters.values())
-        param = params[argument]""")]),
+          self.var_positional_start is None
+          or argument < self.var_positional_start
+      ):""", """      start = self.var_positional_start
+      if start is None or argument < start:""")]),
 ]
